@@ -283,6 +283,9 @@ def rand_decl(rng):
         sig.append("**kw")
     fopts = "@utype.parse" + ("(options=Options(collect_errors=True))" if rng.random() < 0.15 else "")
     src += "%s\ndef %s_fn(%s):\n    return dict(%s)\n" % (fopts, tag, ", ".join(sig), ", ".join("%s=%s" % (p[0], p[0]) for p in params))
+    # an excluded (underscore) first parameter, always given, followed by positional-only parameters with mutable defaults
+    src += ("@utype.parse\ndef %s_po(_conn, tags: List[str] = %r, counters: Dict[str, int] = %r, /, label: str = ''):\n"
+            "    return dict(tags=tags, counters=counters, label=label)\n" % (tag, [rng.choice(["a", "b"])] if rng.random() < 0.5 else [], {"n": rng.randint(0, 3)}))
     # the other call shapes, each with its own wrapper (and per-call context) in the library
     gopts = rng.choice(["@utype.parse", "@utype.parse", "@utype.parse(options=Options(collect_errors=True))", "@utype.parse(eager=True)"])
     dv = r_ints(rng)
@@ -391,7 +394,11 @@ def aliasing_oracle(i_seed):
         dv = f.field.default
         if isinstance(dv, (list, dict, set, tuple)):
             holders["default:%s" % name] = dv
-    raw = getattr(fn, "__wrapped__", None)
+    for fname in ("_fn", "_po"):
+        rawf = getattr(getattr(dyn.get(d["tag"] + fname), "__parser__", None), "obj", None)
+        for i, dv in enumerate((getattr(rawf, "__defaults__", None) or ()) + tuple((getattr(rawf, "__kwdefaults__", None) or {}).values())):
+            if isinstance(dv, (list, dict, set, tuple)):
+                holders["own default %d of %s" % (i, fname)] = dv
     snap = {k: canon(v) for k, v in holders.items()}
     hold_ids = {}
     for k, v in holders.items():
@@ -433,6 +440,9 @@ def aliasing_oracle(i_seed):
         run(lambda: K.__from__(dict(kw)), "class %s.__from__" % d["tag"])
     if not report:
         run(lambda: fn(), "function %s_fn()" % d["tag"])
+    if not report:
+        po = dyn.get(d["tag"] + "_po")
+        run(lambda: po(object(), label="x"), "function %s_po(conn, label='x')" % d["tag"])
     if report:
         return "%s\n-- declaration --\n%s" % (report[0], d["src"])
     return None
@@ -443,7 +453,7 @@ def aliasing_oracle(i_seed):
 # --------------------------------------------------------------------------------------------
 def plan_call(rng, d):
     """(kind, seed): the input is rebuilt from the seed wherever the call runs"""
-    return (rng.choice(["init", "init", "init-dict", "init-dict-kw", "from", "from-json", "fn", "fn", "setattr", "gen", "gen", "afn", "agen"]), rng.getrandbits(32))
+    return (rng.choice(["init", "init", "init-dict", "init-dict-kw", "from", "from-json", "fn", "fn", "po", "setattr", "gen", "gen", "afn", "agen"]), rng.getrandbits(32))
 
 
 def build_input(d, kind, seed):
@@ -485,6 +495,11 @@ def build_input(d, kind, seed):
                     data[k] = copy.deepcopy(kw[k])      # present in both
             return (data, kw)
         return data
+    if kind == "po":
+        args = ["conn"]
+        if rng.random() < 0.3:
+            args.append(rng.choice([["t"], ["u", "v"], "bad" if rng.random() < 0.3 else []]))
+        return (args, {"label": rng.choice(["x", "y", 5])} if rng.random() < 0.7 else {})
     if kind in ("gen", "afn", "agen"):
         n = rng.choice([0, 1, 2, 2, 5, "3", "x", -1, None])
         kw = {}
@@ -520,6 +535,8 @@ def do_call(K, fn, d, kind, inp, state):
             for k, v in inp.items():
                 if k.startswith("f") or k in ("inner", "inners"):
                     setattr(r, k, v)
+        elif kind == "po":
+            r = dyn.get(d["tag"] + "_po")(*inp[0], **inp[1])
         elif kind == "gen":
             r = list(dyn.get(d["tag"] + "_gen")(*inp[0], **inp[1]))
         elif kind == "afn":
@@ -588,6 +605,22 @@ def history_oracle(i_seed):
         before = canon(inp)
         got = do_call(K, fn, d, kind, inp, state)
         kinds[got[0]] = kinds.get(got[0], 0) + 1
+        # the containers of fields / parameters declared with element types are rebuilt by the parser: none of them is one
+        # of the caller's own objects (an empty one included)
+        if got[0] == "ok" and state:
+            r = state[-1]
+            mine = containers(inp)
+            typed = [n for n, t, *_ in d["fields"] if "[" in t] if kind in ("init", "init-dict", "init-dict-kw", "from", "setattr") else \
+                    [n for n, t, *_ in d["params"] if "[" in t] if kind == "fn" else []
+            for n in typed:
+                try:
+                    val = r[n] if isinstance(r, dict) and not hasattr(type(r), "__parser__") else getattr(r, n)
+                except Exception:
+                    continue
+                shared = [id(val)] if isinstance(val, (list, dict, set)) and id(val) in mine else []     # the outer container only: elements typed Any pass through
+                if shared:
+                    return ("input-aliased", "call %d (%s): the value of %r (declared %s) is the caller's own container %r\n-- declaration --\n%s"
+                            % (step, kind, n, [t for m, t, *_ in (d["fields"] + d["params"]) if m == n][0], mine[shared[0]], d["src"]), kinds)
         if canon(inp) != before:
             return ("input-mutated", "call %d (%s) changed its input from %r to %r\n-- declaration --\n%s" % (step, kind, before, canon(inp), d["src"]), kinds)
         if fresh[step][0] == "harness-error":
